@@ -49,9 +49,18 @@ class PV:
     cont: str  # 'IN' (caller's dtype) or a key of BITS
     kind: str = "arr"
     origin: str = ""  # provenance tag, e.g. 'pred', 'ref'
+    uniq: bool = False  # 1-D array of distinct values (np.unique result and what is derived element-wise)
 
     def __hash__(self):
         return hash((self.poly, self.cont, self.kind))
+
+
+class EmptyArr:
+    """A 1-D array from which the generic element was filtered out: every element-wise
+    operation keeps it empty, iteration and tolist() give nothing."""
+
+    def __repr__(self):
+        return "EmptyArr()"
 
 
 @dataclass
@@ -139,6 +148,8 @@ class Pointwise(Interp):
 
     # -- hooks ----------------------------------------------------------------------------
     def binop_hook(self, op, l, r, node):
+        if isinstance(l, EmptyArr) or isinstance(r, EmptyArr):
+            return l if isinstance(l, EmptyArr) else r
         a, b = self.lift(l), self.lift(r)
         if a is None or b is None:
             return Unknown(f"binop {type(op).__name__} on {l!r},{r!r}")
@@ -182,12 +193,81 @@ class Pointwise(Interp):
             return Unknown("bool bitop")
         else:
             return Unknown(f"binop {type(op).__name__}")
-        out = PV(res, cont, kind, a.origin or b.origin)
+        out = PV(res, cont, kind, a.origin or b.origin, uniq=(a.uniq and b.kind != "arr") or (b.uniq and a.kind != "arr"))
+        if cont == "f64" and isinstance(op, (ast.Mod, ast.FloorDiv, ast.Div)) and kind != "py":
+            # float64 remainder / floor division of integral values is exact only while the
+            # operands are exactly representable (2**53)
+            for big in (a.poly, b.poly):
+                self.event(node, "float64:" + type(op).__name__, big, "f64", f"{norm(node) if isinstance(node, ast.AST) else ''} (float64 arithmetic on integral values)")
         if isinstance(op, (ast.Add, ast.Sub, ast.Mult)) and kind != "py":
             self.event(node, type(op).__name__, res, cont, f"{norm(node) if isinstance(node, ast.AST) else ''}")
         return out
 
+    def compare(self, op, l, r, node):
+        # dtype of a pointwise value against a dtype name
+        ld = l.name[8:] if isinstance(l, Sym) and l.name.startswith("dtypeof:") else None
+        rd = r.name[8:] if isinstance(r, Sym) and r.name.startswith("dtypeof:") else None
+        if (ld is not None or rd is not None) and isinstance(op, (ast.Eq, ast.NotEq, ast.Is, ast.IsNot)):
+            x = ld if ld is not None else dtype_of(l)
+            y = rd if rd is not None else dtype_of(r)
+            if x in BITS and y in BITS and "py" not in (x, y):
+                eq = x == y
+                return eq if isinstance(op, (ast.Eq, ast.Is)) else not eq
+            return self._dtype_fact(f"{x}=={y}", node, isinstance(op, (ast.NotEq, ast.IsNot)))
+        if isinstance(l, Sym) and l.name.startswith("dtypekind:") and isinstance(op, (ast.In, ast.NotIn, ast.Eq, ast.NotEq)) and isinstance(r, str):
+            cont = l.name[10:]
+            kind = "b" if cont == "bool" else cont[0] if cont in BITS and cont != "py" else None
+            if kind is None:
+                return self._dtype_fact(f"kind({cont}) in {r!r}", node, isinstance(op, (ast.NotIn, ast.NotEq)))
+            res = (kind in r) if isinstance(op, (ast.In, ast.NotIn)) else (kind == r)
+            return res if isinstance(op, (ast.In, ast.Eq)) else not res
+        if isinstance(l, _PVMethod) or isinstance(r, _PVMethod):
+            # shape / ndim / size of an input: a fact about the caller's arrays
+            def key(v):
+                return f"{v.pv.origin or 'arr'}.{v.name}" if isinstance(v, _PVMethod) else repr(v)
+
+            if isinstance(l, _PVMethod) and isinstance(r, _PVMethod) and l.name == r.name and l.pv.origin == r.pv.origin and isinstance(op, (ast.Eq, ast.NotEq)):
+                return isinstance(op, ast.Eq)
+            return self._dtype_fact(f"{key(l)} {type(op).__name__} {key(r)}", node, False)
+        return super().compare(op, l, r, node)
+
+    def _dtype_fact(self, what: str, node, negate: bool):
+        """One opaque truth value per question about the inputs' dtype/shape (memoised, so that a
+        fast path and its fallback see one consistent input class)."""
+        facts = self.root.__dict__.setdefault("dtype_facts", {})
+        u = facts.get(what)
+        if u is None:
+            u = facts[what] = Unknown(f"dtype-fact {what}")
+        if negate:
+            return not self.truth(u, node)
+        return u
+
+    def isinstance_hook(self, v, klass, node):
+        if isinstance(v, PV) and v.kind == "arr":
+            return self._dtype_fact(f"isinstance({v.origin or 'arr'}, {getattr(klass, 'name', klass)!s})", node, False)
+        return super().isinstance_hook(v, klass, node)
+
+    def get_attr(self, base, attr, node):
+        if isinstance(base, Sym) and base.name.startswith("dtypeof:") and attr == "kind":
+            return Sym("dtypekind:" + base.name[8:])
+        if isinstance(base, EmptyArr):
+            return _PVMethod(base, attr)
+        return super().get_attr(base, attr, node)
+
+    def subscript_hook(self, base, idx, node):
+        if isinstance(base, EmptyArr):
+            return base
+        if isinstance(base, PV) and base.uniq:
+            # boolean selection from the array of distinct values: the generic element stays or goes
+            if isinstance(idx, Mask) and idx.value is not None:
+                return base if idx.value else EmptyArr()
+            if isinstance(idx, Unknown) and getattr(idx, "pv", None) is not None:
+                return base if self.decide(node, idx) else EmptyArr()
+        return super().subscript_hook(base, idx, node)
+
     def compare_hook(self, op, l, r, node):
+        if isinstance(l, EmptyArr) or isinstance(r, EmptyArr):
+            return Mask(None, "comparison on an empty selection")
         a, b = self.lift(l), self.lift(r)
         if a is None or b is None:
             return Unknown("compare")
@@ -227,7 +307,16 @@ class Pointwise(Interp):
             return self.pv_method(fv.pv, fv.name, args, kwargs, node)
         return super().apply(fv, args, kwargs, node)
 
-    def pv_method(self, pv: PV, name, args, kwargs, node):
+    def pv_method(self, pv, name, args, kwargs, node):
+        if isinstance(pv, EmptyArr):
+            if name in ("astype", "copy"):
+                return pv
+            if name == "tolist":
+                return []
+            return Unknown(f"array method {name} on an empty selection")
+        if name == "tolist" and pv.uniq and not args and not kwargs:
+            # python numbers with the values of the elements
+            return [PV(pv.poly, "py", "py", pv.origin)]
         if name == "astype":
             dt = dtype_of(args[0]) if args else None
             if dt is None and args and isinstance(args[0], Sym) and args[0].name.startswith("dtypeof:"):
@@ -235,7 +324,7 @@ class Pointwise(Interp):
             if dt is None:
                 return Unknown("astype to unknown dtype")
             self.event(node, "astype", pv.poly, dt, "cast")
-            return PV(pv.poly, dt, pv.kind, pv.origin)
+            return PV(pv.poly, dt, pv.kind, pv.origin, uniq=pv.uniq)
         if name == "copy":
             return pv
         if name in ("max", "min"):
@@ -269,8 +358,14 @@ class Pointwise(Interp):
         if n in ("numpy.unique",):
             if args and isinstance(args[0], PV) and not kwargs:
                 a = args[0]
-                return [PV(a.poly, a.cont, "nps", a.origin)]
+                return PV(a.poly, a.cont, "arr", a.origin, uniq=True)
             return Unknown("np.unique with options")
+        if n in _UFUNC_OPS and len(args) == 2 and not kwargs:
+            return self.binop(_UFUNC_OPS[n](), args[0], args[1], node)
+        if n == "numpy.float64" and args and isinstance(self.lift(args[0]), PV) and not kwargs:
+            a = self.lift(args[0])
+            self.event(node, "astype", a.poly, "f64", "cast")
+            return PV(a.poly, "f64", "nps" if a.kind != "arr" else "arr", a.origin, uniq=a.uniq)
         if n in ("max", "min", "builtin:max", "builtin:min") or n in ("numpy.max", "numpy.amax"):
             if args and isinstance(args[0], LabelSeq):
                 return args[0].max_value if n.endswith("max") else Unknown("min of labels")
@@ -294,7 +389,17 @@ class Pointwise(Interp):
     def iterate(self, it, node):
         if isinstance(it, list):
             return it
+        if isinstance(it, EmptyArr):
+            return []
+        if isinstance(it, PV) and it.uniq:
+            return [PV(it.poly, it.cont, "nps", it.origin)]
         return super().iterate(it, node)
+
+
+_UFUNC_OPS = {
+    "numpy.remainder": ast.Mod, "numpy.mod": ast.Mod, "numpy.floor_divide": ast.FloorDiv, "numpy.add": ast.Add,
+    "numpy.multiply": ast.Mult, "numpy.subtract": ast.Sub,
+}
 
 
 @dataclass
